@@ -94,7 +94,7 @@ pub open spec fn ord_rank(o: Ordering) -> int {
     match o { Ordering::Less => 0, Ordering::Equal => 1, Ordering::Greater => 2 }
 }
 pub assume_specification<'a, T, F> [ <[T]>::binary_search_by ] (s: &'a [T], f: F) -> (r: Result<usize, usize>)
-    where F: FnMut(&'a T,) + FnOnce(&'a T,) -> Ordering,
+    where F: FnMut(&'a T) -> Ordering,
     ensures
         r matches Ok(i) ==> i < s@.len() && f.ensures((&s@[i as int],), Ordering::Equal),
         r matches Err(i) ==> i <= s@.len(),
